@@ -251,6 +251,19 @@ func DictFixed(m *big.Int, stride int) []*big.Int {
 			out = append(out, v)
 		}
 	}
+	// folded look-alikes of the special values, as canonical values and as Montgomery forms
+	if rInv := new(big.Int).ModInverse(new(big.Int).Mod(two256, m), m); rInv != nil {
+		for _, b := range foldBases(m)[:3] {
+			for _, dl := range []uint64{1, ^uint64(0)} {
+				for _, v := range FoldedLookAlikes(b, dl) {
+					if v.Cmp(m) < 0 {
+						add(v)
+						add(new(big.Int).Mul(v, rInv))
+					}
+				}
+			}
+		}
+	}
 	words := d.Words
 	if len(words) > 160 {
 		words = words[:160]
@@ -354,6 +367,51 @@ func DictFixed(m *big.Int, stride int) []*big.Int {
 	return out
 }
 
+// foldBases are the special values whose folded look-alikes are generated: 0, 1, 2, m-1, R = 2^256 mod m (the Montgomery form
+// of 1), m-R, and R*2 - the values fast paths test for.
+func foldBases(m *big.Int) []*big.Int {
+	r := new(big.Int).Mod(two256, m)
+	return []*big.Int{big.NewInt(1), r, big.NewInt(0), new(big.Int).Sub(m, one), new(big.Int).Sub(m, r), big.NewInt(2), new(big.Int).Mod(new(big.Int).Lsh(r, 1), m)}
+}
+
+// FoldedLookAlikes returns values that differ from base in two or three 64-bit limbs at once while a fold of the limbs is
+// unchanged: the sum (l[i]+d, l[j]-d; and x, y, -(x+y) on three limbs) or the XOR (l[i]^d, l[j]^d) modulo 2^64. d = 0 is
+// replaced by 1.
+func FoldedLookAlikes(base *big.Int, d uint64) []*big.Int {
+	if d == 0 {
+		d = 1
+	}
+	l0 := ToLimbs(new(big.Int).Mod(base, two256))
+	var out []*big.Int
+	for i := 0; i < 4; i++ {
+		for j := 0; j < 4; j++ {
+			if i == j {
+				continue
+			}
+			l := l0
+			l[i], l[j] = l[i]+d, l[j]-d
+			out = append(out, FromLimbs(l))
+			if i < j {
+				l = l0
+				l[i], l[j] = l[i]^d, l[j]^d
+				out = append(out, FromLimbs(l))
+			}
+		}
+	}
+	for skip := 0; skip < 4; skip++ { // three limbs: +d, +d', -(d+d')
+		l, k := l0, 0
+		for i := 0; i < 4; i++ {
+			if i == skip {
+				continue
+			}
+			l[i] += []uint64{d, mix64(d), -(d + mix64(d))}[k]
+			k++
+		}
+		out = append(out, FromLimbs(l))
+	}
+	return out
+}
+
 // DictStride is the thinning the checks apply to DictFixed: every value in the main shards, every 16th in the extra (slower)
 // shards that run all fixed cases.
 func DictStride() int {
@@ -445,13 +503,18 @@ func Uniform256() *rapid.Generator[*big.Int] {
 // DESIGN.md section 3.3; simplest classes first so that shrinking moves towards small values.
 func Int(m *big.Int) *rapid.Generator[*big.Int] {
 	return rapid.Custom(func(t *rapid.T) *big.Int {
-		kind := Pick(t, "intKind", 21)
+		kind := Pick(t, "intKind", 22)
 		var v *big.Int
 		switch kind {
 		case 18, 19, 20: // aimed at constants found in the sources of the tree under test
 			if v = dictInt(t, m); v == nil {
 				v = Uniform256().Draw(t, "r")
 			}
+		case 21: // look-alikes under a FOLD of the words: several words of a special value changed together so that their sum, XOR or
+			// AND/OR stays what it was (what a comparison that folds limbs with + or ^ instead of | cannot tell apart)
+			bases := foldBases(m)
+			fl := FoldedLookAlikes(bases[rapid.IntRange(0, len(bases)-1).Draw(t, "foldBase")], U64(t, "foldDelta")>>uint(rapid.SampledFrom([]int{0, 63, 32, 1}).Draw(t, "foldShift")))
+			v = fl[rapid.IntRange(0, len(fl)-1).Draw(t, "foldPick")]
 		case 0: // tiny
 			v = big.NewInt(int64(rapid.IntRange(0, 3).Draw(t, "tiny")))
 		case 1: // top of the range
